@@ -136,6 +136,25 @@ func runConv(seed uint64, n int, outDir string, replay string) {
 				}
 				o.Count("cubic")
 			}
+			// prime reprices copies (NewTx(etx.Inner()) + SetValue / SetEtxType) of the conversions it finds in the
+			// cached rollups; the same cached ETX is read again by a retried append or by a sibling prime block, so the
+			// repricing must not write through to it - otherwise the second pass converts an already converted amount
+			{
+				to, from := cAddr(rc, loc), cAddr(rc, loc)
+				orig := types.NewTx(&types.ExternalTx{OriginatingTxHash: cHash(rc), ETXIndex: uint16(rc.Intn(100)), Gas: 21000, To: &to, Value: cvAmount(rc), Data: []byte{0x23, 0x28}, Sender: from, EtxType: types.ConversionType})
+				before, hashBefore := new(big.Int).Set(orig.Value()), orig.Hash()
+				for pass := 0; pass < 2; pass++ {
+					cp := types.NewTx(orig.Inner())
+					cp.SetValue(misc.QiToQuai(wo, rate, diff, cp.Value()))
+					if pass == 1 {
+						cp.SetEtxType(uint64(types.ConversionRevertType))
+					}
+				}
+				if orig.Value().Cmp(before) != 0 || orig.Hash() != hashBefore || orig.EtxType() != types.ConversionType {
+					o.Violate("c20-repricing-writes-through-to-cached-etx", fmt.Sprintf("repricing copies of a conversion ETX changed the cached one: value %s -> %s, type %d", before, orig.Value(), orig.EtxType()))
+				}
+				o.Count("reprice-copy-probe")
+			}
 		}()
 		o.EndCase(fmt.Sprint(rc.U64()), true)
 	}
